@@ -40,6 +40,8 @@ type lzIn struct {
 	tok  string
 	e    int64 // write: expiry the entry gets
 	now  int64
+	// single: a batch operation recorded for the key kidx only
+	single bool
 }
 
 type lzOut struct {
@@ -79,8 +81,18 @@ func lzVariants(s lzState, i int, alts []lzEnt) []lzState {
 }
 
 // lzBatch applies a per-entry transition (returning the possible next entries) to both entries.
-func lzBatch(s lzState, f func(e lzEnt) []lzEnt) []interface{} {
+func lzBatch(s lzState, in lzIn, f func(e lzEnt) []lzEnt) []interface{} {
 	var out []interface{}
+
+	if in.single {
+		for _, a := range f(s.ent[in.kidx]) {
+			t := s
+			t.ent[in.kidx] = a
+			out = append(out, t)
+		}
+
+		return out
+	}
 
 	for _, a := range f(s.ent[0]) {
 		for _, b := range f(s.ent[1]) {
@@ -152,7 +164,7 @@ var lzModel = (&porcupine.NondeterministicModel{
 
 			return nil
 		case lzExpireAll:
-			return lzBatch(s, func(e lzEnt) []lzEnt {
+			return lzBatch(s, in, func(e lzEnt) []lzEnt {
 				if !e.present {
 					return []lzEnt{e}
 				}
@@ -171,9 +183,15 @@ var lzModel = (&porcupine.NondeterministicModel{
 				return []lzEnt{t}
 			})
 		case lzDeleteAll:
+			if in.single {
+				s.ent[in.kidx] = lzEnt{}
+
+				return []interface{}{s}
+			}
+
 			return []interface{}{lzState{}}
 		case lzCleanup:
-			return lzBatch(s, func(e lzEnt) []lzEnt {
+			return lzBatch(s, in, func(e lzEnt) []lzEnt {
 				if e.present {
 					return []lzEnt{e, {}}
 				}
@@ -182,7 +200,7 @@ var lzModel = (&porcupine.NondeterministicModel{
 			})
 		case lzExpunge:
 			// removes exactly the entries expired longer than DeleteExpiredAfter (in.e carries the boundary)
-			return lzBatch(s, func(e lzEnt) []lzEnt {
+			return lzBatch(s, in, func(e lzEnt) []lzEnt {
 				if e.present && e.e != 0 && e.e < in.e {
 					return []lzEnt{{}}
 				}
@@ -347,6 +365,15 @@ func propLinearizable(c *Case) {
 			hmu.Unlock()
 		}
 
+		// a batch operation acts on each KEY at one instant within its call: the two keys of a colliding
+		// pair (which may coexist) are two operations on their slot
+		recordBatch := func(client int, in lzIn, call, ret int64) {
+			for ki := range slotKeys[in.slot] {
+				in.kidx, in.single = ki, true
+				record(client, in, lzOut{}, call, ret)
+			}
+		}
+
 		client := 0
 
 		for p := 0; p < nphases; p++ {
@@ -437,7 +464,7 @@ func propLinearizable(c *Case) {
 
 							for s := 0; s < nslots; s++ {
 								if o.kind != lzCleanup {
-									record(cid, lzIn{kind: o.kind, slot: s, now: now}, lzOut{}, call, ret)
+									recordBatch(cid, lzIn{kind: o.kind, slot: s, now: now}, call, ret)
 
 									continue
 								}
@@ -445,10 +472,10 @@ func propLinearizable(c *Case) {
 								// A cleanup cycle is two batch operations, each acting on a key at its own
 								// instant within the call: delete entries expired longer than
 								// DeleteExpiredAfter (exactly those), then evict (anything, if a limit is set).
-								record(cid, lzIn{kind: lzExpunge, slot: s, now: now, e: now - int64(time.Hour)}, lzOut{}, call, ret)
+								recordBatch(cid, lzIn{kind: lzExpunge, slot: s, now: now, e: now - int64(time.Hour)}, call, ret)
 
 								if evict {
-									record(cid, lzIn{kind: lzCleanup, slot: s, now: now}, lzOut{}, call, ret)
+									recordBatch(cid, lzIn{kind: lzCleanup, slot: s, now: now}, call, ret)
 								}
 							}
 						case lzWalk:
